@@ -774,9 +774,14 @@ def k_compose(eng, which):
         y, m, d, h, own = (None,) * 5
         ctx = _ctx(eng, {"EightChar::from_sixty_cycle": ("from_sixty_cycle", "SixtyCycle", "EightChar")})
         holder.update(ctx=ctx)
-        y, m, d, h, own = [ctx.fresh_value(n, "usize") for n in ("year_pillar", "month_pillar", "rolled_day_pillar", "hour_pillar", "own_day_pillar")]
-        pre = ["(<= 0 %s 59)" % v.s for v in (y, m, d, h, own)]
+        y, m, d, h, own, dvy, dvm = [ctx.fresh_value(n, "usize") for n in ("year_pillar", "month_pillar", "rolled_day_pillar", "hour_pillar", "own_day_pillar",
+                                                                             "day_level_year_pillar", "day_level_month_pillar")]
+        pre = ["(<= 0 %s 59)" % v.s for v in (y, m, d, h, own, dvy, dvm)]
         view = Rec(ctx, "instant_view", "SixtyCycleHour")
+        vf = struct_fields(os.path.join(REPO, "src/tyme/sixtycycle.rs"), "SixtyCycleHour")
+        view_day_k = vf.index("day")
+        view.fields[view_day_k] = Rec(ctx, "instant_day", "SixtyCycleDay")
+        view.fields[vf.index("hour")] = Obj("SixtyCycle", h)
         model = ctx.model
         base = model.call
         want = {"year": y, "month": m, "day": d, "hour": h}
@@ -787,6 +792,25 @@ def k_compose(eng, which):
                 r = {"SixtyCycleHour::get_year": y, "SixtyCycleHour::get_month": m, "SixtyCycleHour::get_day": d, "SixtyCycleHour::get_sixty_cycle": h}.get(callee)
                 if r is not None:
                     return True, Obj("SixtyCycle", r)
+            # the instant view holds a hand-built day record carrying the INSTANT-level year / month pillars and the rolled day pillar;
+            # a day-level view obtained from the civil day is a different object with its own (arbitrary) year / month / day pillars
+            if a and isinstance(a[0], Rec) and a[0].name in ("instant_day", "day_level_view"):
+                src = {"instant_day": (y, m, d), "day_level_view": (dvy, dvm, own)}[a[0].name]
+                r = {"SixtyCycleDay::get_year": src[0], "SixtyCycleDay::get_month": src[1], "SixtyCycleDay::get_sixty_cycle": src[2]}.get(callee)
+                if r is not None:
+                    return True, Obj("SixtyCycle", r)
+                if callee == "SixtyCycleDay::get_solar_day":
+                    return True, Rec(c, "civil_day", "SolarDay")
+            if a and a[0] is view and callee == "SixtyCycleHour::get_sixty_cycle_day":
+                return True, view.fields[view_day_k]
+            if a and a[0] is view and callee == "SixtyCycleHour::get_solar_time":
+                return True, Rec(c, "civil_instant", "SolarTime")
+            if callee == "SolarTime::get_solar_day" and isinstance(a[0], Rec) and a[0].name == "civil_instant":
+                return True, Rec(c, "civil_day", "SolarDay")
+            if callee == "SolarDay::get_sixty_cycle_day" and isinstance(a[0], Rec) and a[0].name == "civil_day":
+                return True, Rec(c, "day_level_view", "SixtyCycleDay")
+            if callee == "SolarTime::get_sixty_cycle_hour" and isinstance(a[0], Rec) and a[0].name == "civil_instant":
+                return True, view
             if callee == "LunarHour::get_sixty_cycle_hour":
                 return True, view
             if callee == "LunarHour::get_lunar_day":
@@ -842,7 +866,9 @@ def k_compose(eng, which):
 
 # ------------------------------------------------------------------------------------------------ stepping the day / instant views (11.j)
 def k_view_next(eng, which):
-    """SixtyCycleDay::next(n) is the view of the civil day n days later; SixtyCycleHour::next(n) the view of the instant n seconds later"""
+    """SixtyCycleDay::next(n) is the view of the civil day n days later; SixtyCycleHour::next(n) the view of the instant n seconds later.
+    Every component of a view is a function of its day / instant: component f of the view at offset t is PartOf(f, t); the result must be
+    the view at offset n in every component (whether it is built by the constructor or assembled by hand)."""
     owner, field, base_ty, ctor = {"day": ("SixtyCycleDay", "solar_day", "SolarDay", "from_solar_day"), "hour": ("SixtyCycleHour", "solar_time", "SolarTime", "from_solar_time")}[which]
     holder = {}
 
@@ -850,33 +876,65 @@ def k_view_next(eng, which):
         def __init__(self, t):
             self.t = t
 
+    class PartOf:
+        def __init__(self, f, t):
+            self.f, self.t = f, t
+
     def build(eng):
         fields = struct_fields(os.path.join(REPO, "src/tyme/sixtycycle.rs"), owner)
         fn = M.find_fn(eng.fns, "next", "&" + owner, 2)
         ctx = _ctx(eng, {})
         holder.update(ctx=ctx)
         rec = Rec(ctx, "self", owner)
-        inner = rec.field(fields.index(field), base_ty)
+        inner = Rec(ctx, "self." + field, base_ty)
+        for k, f in enumerate(fields):
+            rec.fields[k] = inner if f == field else PartOf(f, I(0))
         n = ctx.fresh_value("n", "isize")
         model = ctx.model
         base = model.call
-        built = {}
+
+        def view_at(c, t):
+            r = Rec(c, "view", owner)
+            r.named = {f: (Stepped(t) if f == field else PartOf(f, t)) for f in fields}
+            return r
 
         def call(c, fr, callee, args, path):
             a = [model.deref(c, x) for x in args]
             if callee == "<%s as Tyme>::next" % base_ty and a[0] is inner and isinstance(a[1], T):
                 return True, Stepped(a[1])
             if callee == "%s::%s" % (owner, ctor) and isinstance(a[0], Stepped):
-                r = Rec(c, "built_view", owner)
-                built[id(r)] = a[0].t
-                return True, r
+                return True, view_at(c, a[0].t)
+            if callee.endswith(" as Clone>::clone") and isinstance(a[0], (PartOf, Stepped)):
+                return True, a[0]
+            if which == "day" and callee == "<SixtyCycle as Tyme>::next" and isinstance(a[0], PartOf) and a[0].f == "day" and isinstance(a[1], T):
+                return True, PartOf("day", T("(+ %s %s)" % (a[0].t.s, a[1].s), "Int"))      # the day pillar advances one per day (07.c, A-index)
             return base(c, fr, callee, args, path)
         model.call = call
         paths = ctx.run(fn, [("refrec", rec), n])
 
+        def comps(p):
+            r = p.ret
+            if r is rec:
+                return {f: (Stepped(I(0)) if f == field else PartOf(f, I(0))) for f in fields}
+            named = getattr(r, "named", None)
+            if not isinstance(r, Rec) or not named or set(named) != set(fields):
+                return None
+            return named
+
         def shape(p):
-            return None if id(p.ret) in built else "result is not the view of this %s stepped" % base_ty
-        return ctx, paths, ["(<= (- 1000000000000) %s 1000000000000)" % n.s], (lambda p: [("stepped-by-n", "(= %s %s)" % (built[id(p.ret)].s, n.s))]), shape
+            c = comps(p)
+            if c is None:
+                return "result is not a %s record" % owner
+            for f, v in c.items():
+                if f == field and not isinstance(v, Stepped):
+                    return "the result's %s is not this view's %s stepped" % (field, base_ty)
+                if f != field and not (isinstance(v, PartOf) and v.f == f):
+                    return "component %s of the result is not a component of a view" % f
+            return None
+
+        def posts(p):
+            return [("%s-at-n" % f, "(= %s %s)" % (v.t.s, n.s)) for f, v in comps(p).items()]
+        return ctx, paths, ["(<= (- 1000000000000) %s 1000000000000)" % n.s], posts, shape
 
     def replay(eng, model):
         nat = eng.native("view_next_scan", 0 if which == "day" else 1)
